@@ -44,6 +44,12 @@ theorem C32_losers_invisible_list (w : Val) (ls ls' : List Val) (rs : List Reg) 
     (Val.list (.live w ls :: rs)).serialize = (Val.list (.live w ls' :: rs)).serialize := by
   simp [Val.serialize, Val.serializeRegs]
 
+/-- the JSON export is a well-formed `serde_json::Value` (object keys strictly increasing, every
+    number in its canonical class, non-finite floats exported as `null`) for every document whose
+    integers fit their Rust types -/
+theorem C32_export_json_wellformed (v : Val) (hr : v.InRange) : (exportJson v).WF :=
+  export_WF v hr
+
 /-- a document exercising every case: root with 3 visible keys + 1 deleted key; a nested map of a
     different size (1 visible + 1 deleted) that is the WINNER of a conflict whose loser is a
     scalar; a list with a conflicted element, a deleted element, a text object and bytes; a counter. -/
@@ -72,6 +78,17 @@ example : decodeEvents sampleDoc.serialize =
   rfl
 
 example : lengthsTrue sampleDoc.serialize = true := by decide
+
+example : exportJson sampleDoc =
+    .obj [("a", .obj [("x", .num (.int 1))]),
+          ("b", .arr [.str "héllo", .arr [.num (.int 1), .num (.int 255)]]),
+          ("c", .num (.int 7))] := by
+  rfl
+
+example : sampleDoc.InRange := by
+  simp only [sampleDoc, Val.InRange, Val.InRangeEntries, Val.InRangeRegs, Scalar.InRange,
+    I64_MIN, I64_MAX]
+  decide
 
 /-- the checker is not vacuous: the pre-fix behaviour (D10: every nested map announces the ROOT's
     length, here 3) is rejected on the same document, by both the length discipline and the
